@@ -45,6 +45,7 @@ func checkC16(r *core.Run) {
 	c16RoutingPayload(r)
 	c16AllocSizes(r)
 	c16SubscriberLoop(r)
+	c16ParseErrorsChecked(r)
 	kvSizeBoundaryAgreement(r)
 }
 
